@@ -160,6 +160,13 @@ Theorem C08_concat_saving : forall wl m0 rest expected, Concat_length.wl_ok wl -
 Proof. exact Concat_length.concat_len_catable. Qed.
 Print Assumptions C08_concat_saving.
 
+(* The shape hypothesis of C08_multi in boolean form: what the C08 check evaluates (inside Coq, by
+   vm_compute) on the first bytes of real catable streams of the encoder. *)
+Theorem C08_catable_shape_decidable : forall wl m,
+  Concat_length.catable_partb wl m = true -> Concat_length.catable_part wl m.
+Proof. exact Concat_length.catable_partb_sound. Qed.
+Print Assumptions C08_catable_shape_decidable.
+
 (* The multi-threaded bound: any split of the input into up to 22 parts (MAX_THREADS is 16), the
    first compressed under any configuration without magic header, the others by workers whose
    streams begin with a window field of wl bits and the stored catable block, each under any
